@@ -33,7 +33,7 @@ def coq_key(k):
 
 def coq_cfg(cfg):
     ths = []
-    for th in cfg:
+    for th in hc.model_cfg(cfg):
         ops = []
         for o in th["ops"]:
             ops.append({"connect": "Connect", "recv": "Recv false", "recvnb": "Recv true",
@@ -95,7 +95,7 @@ def replay_entry(ctx, drv, rec, info):
 def run(ctx):
     quick = ctx.tier == "quick"
     ctx.rule = ("configurations: 2-4 threads over 1-3 endpoint pairs (families pair, paircb = callback endpoints, twosock, "
-                "threenode, reinc = a later endpoint re-using a key, reconn = a (callback) receiver that stays connected while the sender disconnects, reconnects with the same socket id and sends again, lone = no peer, shared = two threads on one key), "
+                "threenode, reinc = a later endpoint re-using a key, switch = the receiver flips use_callbacks on its connected socket while the peer sends, reconn = a (callback) receiver that stays connected while the sender disconnects, reconnects with the same socket id and sends again, lone = no peer, shared = two threads on one key), "
                 "<= 4 send/recv/recv-nonblocking ops between connect and optional disconnect; each is run on the real "
                 "hub under seeded random (pre-emption probability 0.03..0.7) and PCT-style (depth 2..5) line-level "
                 "schedules; message payloads include the empty string, \"0\" and whitespace. A second stream runs "
@@ -169,7 +169,7 @@ def run(ctx):
     n_cfg = 110 if quick else 900
     n_sched = 24 if quick else 60
     max_states = 60000 if quick else 400000
-    t_budget = 65 if quick else 580
+    t_budget = 55 if quick else 580
     t_start = time.time()
     rng = ctx.rng
     for c in range(n_cfg):
@@ -239,7 +239,7 @@ def run(ctx):
     cov["bcast_blocked_runs"] = 0
     t_bc = time.time()
     for c in range(n_bc):
-        if time.time() - t_bc > (25 if quick else 150):
+        if time.time() - t_bc > (20 if quick else 150):
             ctx.notes.append(f"broadcast time budget reached after {c} configurations")
             break
         shape, cfg = hc.gen_bcast(rng)
